@@ -601,7 +601,7 @@ def run_case0(text, premod, want_eval, mrep=None):
             if bad:
                 out["problems"].append(("address-reuse", bad))
         # ---- blank-space siblings through __call__ (parse cache) on long-lived interpreters
-        if tag in ("ok", "err") and len(text) <= 64 and (len(text) <= 6 or want_eval == 2 or zlib.crc32(text.encode()) % 4 == 1):
+        if tag in ("ok", "err") and len(text) <= 64 and (len(text) <= 6 or want_eval == 2 or zlib.crc32(text.encode()) % 8 == 1):
             bad = call_history_check(text, premod, out)
             if bad:
                 out["problems"].append(("call-history", bad))
